@@ -139,6 +139,35 @@ AlgoLexAllPairs(B, q, WS, weakly) == AlgoDecide(B, q, WS, weakly, LexRecAllPairs
 AlgoLexLeq(B, q, WS, weakly)      == AlgoDecide(B, q, WS, weakly, LexRecLeq)
 AlgoLexAllMcsF(B, q, WS, weakly)  == AlgoDecide(B, q, WS, weakly, LexRecAllMcsF)
 
+-----------------------------------------------------------------------------
+(* c-inference as coded (c_inference.py): instead of all worlds only the    *)
+(* MINIMAL correction sets enter the constraint system.  For conditional i: *)
+(*   vMin_i / fMin_i = minimal sets of OTHER conditionals falsified by the   *)
+(*   worlds verifying / falsifying i;  eta_i > min(vSums) - min(fSums),      *)
+(*   no constraint when fMin_i is empty (nothing falsifies i).               *)
+(* Query: not entailed iff base constraints + min(vSums_q) >= min(fSums_q)   *)
+(* are satisfiable, with the short cuts for empty sides.  Impacts range      *)
+(* over 0..U.                                                                *)
+SumSet(eta, S) == SumOver(eta, S)
+MinSum(eta, F) == MinS({SumSet(eta, S) : S \in F})
+CBaseOK(B, eta, WS) ==
+    \A i \in DOMAIN B :
+        LET others == (DOMAIN B) \ {i}
+            vM == Mcs(B, others, {w \in WS : B[i][w] = 1})
+            fM == Mcs(B, others, {w \in WS : B[i][w] = 2})
+        IN  IF fM = {} THEN TRUE
+            ELSE IF vM = {} THEN FALSE
+            ELSE eta[i] > MinSum(eta, vM) - MinSum(eta, fM)
+AlgoC(B, q, WS, U) ==
+    LET V == {w \in WS : q[w] = 1}
+        N == {w \in WS : q[w] = 2}
+        vQ == Mcs(B, DOMAIN B, V)
+        fQ == Mcs(B, DOMAIN B, N)
+    IN  IF N = {} THEN TRUE                                   \* general_inference short cut
+        ELSE IF \A i \in DOMAIN B : \A w \in WS : B[i][w] # 2 THEN FALSE   \* no conditional can be falsified
+        ELSE IF vQ = {} THEN FALSE
+        ELSE ~\E eta \in [DOMAIN B -> 0..U] : CBaseOK(B, eta, WS) /\ MinSum(eta, vQ) >= MinSum(eta, fQ)
+
 (* extended p-entailment as coded (p_entailment.py): partition of the base  *)
 (* plus the negated query; entailed iff no partition exists or the          *)
 (* antecedent is unsatisfiable together with the last (infinity) layer      *)
